@@ -760,6 +760,64 @@ func (w *World) DrawAction(rt *rapid.T, p *Profile) (Action, string) {
 				{Op: "asgDesired", Group: g, N: int(asg.Desired) + rapid.IntRange(1, room-1).Draw(rt, "raisedBy")},
 				tp, {Op: "scan", Flag: true}}}, "rebuildThenExternalResize"
 		}
+	case "overMaxLateBind": // a freshly tainted empty node is seen by an in-range scan; a tolerating pod lands on it; the soft grace passes; the group ends up above its maximum
+		o := &w.Cfg.Groups[g].Opts
+		names := w.GroupNodeNames(g)
+		soft, hard := Dur(o.SoftDeleteGracePeriod), Dur(o.HardDeleteGracePeriod)
+		if len(names) >= 2 && soft > 0 && hard > soft+2*time.Second {
+			x := rapid.SampledFrom(names).Draw(rt, "node")
+			via := "selector"
+			if o.Name == controller.DefaultNodeGroup {
+				via = "none"
+			}
+			seq := []Action{{Op: "clearNode", Node: x}, {Op: "taint", Node: x, Key: ref.TaintKey, Val: fmt.Sprint(time.Now().Unix()), Effect: "NoSchedule"}, {Op: "scan", Flag: true},
+				{Op: "addPods", Group: g, Pods: []PodSpec{{Group: g, Via: via, CPU: 100, Mem: 1_000_000, Node: x, Tolerate: "all"}}},
+				{Op: "advance", D: soft + time.Second}}
+			asg := w.ASG(g)
+			if o.MinNodes == 0 && o.MaxNodes == 0 { // auto-discovered limits: the cloud group's maximum is lowered below the node count
+				seq = append(seq, Action{Op: "asgEdit", Group: g, N: minInt(int(asg.Min), len(names)-1), M: len(names) - 1})
+			} else if extra := o.MaxNodes - len(names) + 1; extra >= 1 && extra <= 6 && int(asg.Max)-len(asg.Instances) >= extra { // somebody launches nodes past max_nodes
+				seq = append(seq, Action{Op: "launch", Group: g, N: extra, Ages: []int64{0}, Flag: true})
+			}
+			seq = append(seq, Action{Op: "scan", Flag: true})
+			return Action{Op: "seq", Seq: seq}, "overMaxLateBind"
+		}
+	case "untaintFailsThenBusy": // a scale-up reuses tainted nodes, one untaint write fails, the cloud accepts the rest; the group is busy again moments later
+		names := w.GroupNodeNames(g)
+		if len(names) >= 3 {
+			k := rapid.IntRange(1, 2).Draw(rt, "tainted")
+			var seq []Action
+			for _, n := range names[len(names)-k:] {
+				seq = append(seq, Action{Op: "taint", Node: n, Key: ref.TaintKey, Val: fmt.Sprint(time.Now().Unix()), Effect: "NoSchedule"})
+			}
+			bad := names[len(names)-1]
+			tp, _ := w.drawTargetPods(rt, g, "farAboveS")
+			tp2, _ := w.drawTargetPods(rt, g, "farAboveS", "zero")
+			kind := rapid.SampledFrom([]string{sim.KGet, sim.KUpdate}).Draw(rt, "kind")
+			seq = append(seq, tp, Action{Op: "fault", Faults: []sim.Fault{{Kind: kind, Nth: -1, Node: bad}}}, Action{Op: "scan", Flag: true},
+				Action{Op: "advance", D: time.Second}, tp2, Action{Op: "scan", Flag: true})
+			return Action{Op: "seq", Seq: seq}, "untaintFailsThenBusy"
+		}
+	case "goneUntaintedThenIdle": // one of the oldest nodes is deleted behind the node cache's back; the pod cache is current and shows an idle group
+		var untainted []string
+		for _, n := range w.GroupNodeNames(g) {
+			if ref.Classify(w.K.Nodes[n]) == ref.Untainted {
+				untainted = append(untainted, n)
+			}
+		}
+		if len(untainted) >= 3 {
+			sort.SliceStable(untainted, func(i, j int) bool {
+				return w.K.Nodes[untainted[i]].CreationTimestamp.Time.Before(w.K.Nodes[untainted[j]].CreationTimestamp.Time)
+			})
+			x := untainted[rapid.IntRange(0, 1).Draw(rt, "whichOldest")]
+			tp, _ := w.drawTargetPods(rt, g, "zero", "belowL", "midLU")
+			return Action{Op: "seq", Seq: []Action{{Op: "scan", Flag: true}, {Op: "killNode", Node: x}, tp, {Op: "scan", Val: "pods"}}}, "goneUntaintedThenIdle"
+		}
+	case "rebuildThenReapNewNode": // a failed refresh makes escalator rebuild its provider; later a new node joins the group and is force-removed
+		return Action{Op: "seq", Seq: []Action{
+			{Op: "fault", Faults: []sim.Fault{{Kind: sim.ADescribeASG, Nth: 0, Count: 1, Code: rapid.SampledFrom(cloudErrorCodes).Draw(rt, "code")}}}, {Op: "scan", Flag: true},
+			{Op: "launch", Group: g, N: 1, Ages: []int64{0}, Flag: true}, {Op: "scan", Flag: true},
+			{Op: "drainAndForce", Group: g, Names: []string{"@newest"}}, {Op: "scan", Flag: true}}}, "rebuildThenReapNewNode"
 	case "onlyCordonedLeft": // every node still in service is cordoned; some others may be on their way out; pods wait (or not)
 		names := w.GroupNodeNames(g)
 		if len(names) > 0 && len(names) <= 12 {
